@@ -107,6 +107,8 @@ class Membership:
                 if not os.path.lexists(p):
                     with open(p, "w") as fh:
                         fh.write("int r;\n")
+        if getattr(self, "no_patterns", False):
+            pats = []               # spelling / link aspects only (used by C15): nothing of the matcher is involved
         return cb, pats
 
     def check(self, inp):
@@ -166,6 +168,16 @@ class Membership:
             if listed != want:
                 rel = lambda xs: [os.path.relpath(x, root) for x in xs]      # noqa: E731
                 return {"expected": rel(want), "observed": rel(listed), "klass": "enumeration", "patterns": pats}
+            # the code-base directory named through a symbolic link: the same code base
+            alias = os.path.join(root, "cb_alias")
+            if not os.path.lexists(alias):
+                os.symlink(cb, alias)
+            via = sorted(CodeBase(alias, exclude_patterns=pats))
+            both = sorted(CodeBase(cb, alias, exclude_patterns=pats))
+            if via != listed or both != listed:
+                rel = lambda xs: [os.path.relpath(x, root) for x in xs]      # noqa: E731
+                return {"expected": f"CodeBase(link to the directory) and CodeBase(directory, link) list {rel(listed)}",
+                        "observed": f"{rel(via)} / {rel(both)}", "klass": "enumeration:directory-named-through-a-link"}
             # overlapping code-base directories (the same one twice, one below another): every member listed once
             subdirs = [os.path.join(cb, n) for n in sorted(os.listdir(cb)) if os.path.isdir(os.path.join(cb, n)) and not os.path.islink(os.path.join(cb, n))]
             for dirs in ([cb, cb], [cb] + subdirs[:1], subdirs[:1] + [cb]):
